@@ -6,12 +6,14 @@ import (
 	"math"
 	"reflect"
 	"strings"
+	"sync"
 
 	"github.com/tobgu/qframe"
 	"github.com/tobgu/qframe/config/csv"
 	"github.com/tobgu/qframe/config/eval"
 	"github.com/tobgu/qframe/config/groupby"
 	"github.com/tobgu/qframe/config/newqf"
+	"github.com/tobgu/qframe/config/rolling"
 	"github.com/tobgu/qframe/types"
 
 	"verif/harness/core"
@@ -52,6 +54,24 @@ func c10Base() model.Frame {
 		{Name: "e5", Kind: model.Enum, EnumVals: []string{"san jose", "ca"}, Cells: []model.Cell{model.S("ca"), N, model.S("san jose")}},
 		{Name: "e6", Kind: model.Enum, EnumVals: []string{"san", "jose ca"}, Cells: []model.Cell{model.S("san"), N, model.S("jose ca")}},
 	}}
+}
+
+var (
+	c10big     qframe.QFrame
+	c10bigOnce sync.Once
+)
+
+// c10BigFrame: 40000 rows (int key k with 7 values, int v, float w); shared, built once
+func c10BigFrame() qframe.QFrame {
+	c10bigOnce.Do(func() {
+		n := 40000
+		k, v, w := make([]int, n), make([]int, n), make([]float64, n)
+		for i := range k {
+			k[i], v[i], w[i] = i%7, i%13, float64(i%5)
+		}
+		c10big = qframe.New(map[string]interface{}{"k": k, "v": v, "w": w})
+	})
+	return c10big
 }
 
 var c10VariantNames = []string{"base", "empty", "sorted-sliced", "selected", "aggregated"}
@@ -590,6 +610,42 @@ func miscZoo() []miscItem {
 			return qframe.QFrame{}, q.ToCSV(&bytes.Buffer{}, csvColumns(q.ColumnNames()[1:]))
 		}},
 		// valid requests next to the invalid ones (vacuity guard: these must not be errors)
+		{"Aggregate(sum i2, max i2 As mx) valid", false, fr(func(q qframe.QFrame) qframe.QFrame {
+			return q.GroupBy(groupby.Columns("i")).Aggregate(qframe.Aggregation{Fn: "sum", Column: "i2"}, qframe.Aggregation{Fn: "max", Column: "i2", As: "mx"})
+		})},
+		{"Aggregate(count of the key column As n, min f As i2) valid", false, fr(func(q qframe.QFrame) qframe.QFrame {
+			return q.GroupBy(groupby.Columns("i")).Aggregate(qframe.Aggregation{Fn: "count", Column: "i", As: "n"}, qframe.Aggregation{Fn: "min", Column: "f", As: "i2"})
+		})},
+		{"Aggregate(two aggregations with the same As)", true, fr(func(q qframe.QFrame) qframe.QFrame {
+			return q.GroupBy(groupby.Columns("i")).Aggregate(qframe.Aggregation{Fn: "sum", Column: "i2", As: "x"}, qframe.Aggregation{Fn: "max", Column: "f", As: "x"})
+		})},
+		{"Aggregate(the same column twice without As)", true, fr(func(q qframe.QFrame) qframe.QFrame {
+			return q.GroupBy(groupby.Columns("i")).Aggregate(qframe.Aggregation{Fn: "sum", Column: "i2"}, qframe.Aggregation{Fn: "max", Column: "i2"})
+		})},
+		{"Aggregate(second aggregation named like the key column)", true, fr(func(q qframe.QFrame) qframe.QFrame {
+			return q.GroupBy(groupby.Columns("i")).Aggregate(qframe.Aggregation{Fn: "sum", Column: "i2"}, qframe.Aggregation{Fn: "max", Column: "f", As: "i"})
+		})},
+		{"Aggregate(first valid, second invalid function) on 40000 rows", true, fr(func(q qframe.QFrame) qframe.QFrame {
+			return c10BigFrame().GroupBy(groupby.Columns("k")).Aggregate(qframe.Aggregation{Fn: "avg", Column: "v"}, qframe.Aggregation{Fn: "sum", Column: "w"}, qframe.Aggregation{Fn: "max", Column: "w", As: "mw"})
+		})},
+		{"Aggregate(last invalid) on 40000 rows", true, fr(func(q qframe.QFrame) qframe.QFrame {
+			return c10BigFrame().GroupBy(groupby.Columns("k")).Aggregate(qframe.Aggregation{Fn: "sum", Column: "w"}, qframe.Aggregation{Fn: "max", Column: "w", As: "mw"}, qframe.Aggregation{Fn: "avg", Column: "v"})
+		})},
+		{"Val(list holding only an operation)", true, fr(func(q qframe.QFrame) qframe.QFrame {
+			if r := q.Eval("n", qframe.Val([]interface{}{"abs"})); r.Err == nil {
+				return r
+			}
+			if r := q.Eval("n", qframe.Expr("+", col("i"), []interface{}{"abs"})); r.Err == nil {
+				return r
+			}
+			return q.Eval("n", qframe.Val([]interface{}{"+", col("i"), []interface{}{"abs"}}))
+		})},
+		{"Val(empty list) / Val(list of five)", true, fr(func(q qframe.QFrame) qframe.QFrame {
+			if r := q.Eval("n", qframe.Val([]interface{}{})); r.Err == nil {
+				return r
+			}
+			return q.Eval("n", qframe.Val([]interface{}{"+", col("i"), col("i2"), col("i"), col("i2"), 1, 2}))
+		})},
 		{"Sort(i) valid", false, fr(func(q qframe.QFrame) qframe.QFrame { return q.Sort(qframe.Order{Column: "i"}) })},
 		{"Slice(0,n) valid", false, fr(func(q qframe.QFrame) qframe.QFrame { return q.Slice(0, q.Len()) })},
 		{"Slice(n,n) valid", false, fr(func(q qframe.QFrame) qframe.QFrame { return q.Slice(q.Len(), q.Len()) })},
@@ -696,8 +752,33 @@ func contOps() []contOp {
 			return q.GroupBy().Aggregate(qframe.Aggregation{Fn: "count", Column: "i"})
 		}},
 		{"GroupBy(i).Aggregate()", func(q qframe.QFrame, c *int) qframe.QFrame { return q.GroupBy(groupby.Columns("i")).Aggregate() }},
+		{"Rolling(fn)", func(q qframe.QFrame, c *int) qframe.QFrame {
+			return q.Rolling(func(v []int) int { *c++; return 0 }, "n", "i", rolling.WindowSize(2))
+		}},
+		{"Rolling(invalid window size)", func(q qframe.QFrame, c *int) qframe.QFrame {
+			return q.Rolling(func(v []int) int { *c++; return 0 }, "n", "i", rolling.WindowSize(0))
+		}},
+		{"Rolling(invalid position)", func(q qframe.QFrame, c *int) qframe.QFrame {
+			return q.Rolling("sum", "n", "i", rolling.Position("nowhere"))
+		}},
+		{"Sort(unknown column)", func(q qframe.QFrame, c *int) qframe.QFrame { return q.Sort(qframe.Order{Column: "zz"}) }},
+		{"Select(unknown column)", func(q qframe.QFrame, c *int) qframe.QFrame { return q.Select("zz") }},
+		{"Copy(illegal name)", func(q qframe.QFrame, c *int) qframe.QFrame { return q.Copy("$x", "i") }},
+		{"Eval(malformed)", func(q qframe.QFrame, c *int) qframe.QFrame {
+			return q.Eval("n", qframe.Expr("nope", types.ColumnName("zz")))
+		}},
+		{"Slice(bad bounds)", func(q qframe.QFrame, c *int) qframe.QFrame { return q.Slice(5, 2) }},
+		{"Filter(unknown comparator)", func(q qframe.QFrame, c *int) qframe.QFrame {
+			return q.Filter(qframe.Filter{Column: "i", Comparator: "nosuch", Arg: 1})
+		}},
 	}
 }
+
+// errored frames are values (Err set, no rows): built once per variant and worker
+var c10erroredCache = map[int][]struct {
+	name string
+	q    qframe.QFrame
+}{}
 
 // erroredFrames: one representative per way of producing an error.
 func erroredFrames(base qframe.QFrame) []struct {
@@ -744,7 +825,11 @@ func erroredFrames(base qframe.QFrame) []struct {
 
 func runSticky(c zooCase) *core.Failure {
 	base := c10Variants()[c.Variant]
-	efs := erroredFrames(base)
+	efs, ok := c10erroredCache[c.Variant]
+	if !ok {
+		efs = erroredFrames(base)
+		c10erroredCache[c.Variant] = efs
+	}
 	if c.A >= len(efs) {
 		return core.Failf("bad errored frame index")
 	}
@@ -761,6 +846,9 @@ func runSticky(c zooCase) *core.Failure {
 		names = append(names, ops[oi].name)
 		if q.Err == nil {
 			return core.Failf("error lost: [%s] -> %s yields a frame without Err", ef.name, strings.Join(names, " -> "))
+		}
+		if !strings.Contains(q.Err.Error(), ef.q.Err.Error()) {
+			return core.Failf("the error was replaced: [%s] -> %s reports %q, the frame it was called on reported %q", ef.name, strings.Join(names, " -> "), q.Err.Error(), ef.q.Err.Error())
 		}
 		if q.Len() != -1 {
 			return core.Failf("errored frame exposes rows: [%s] -> %s has Len() %d", ef.name, strings.Join(names, " -> "), q.Len())
@@ -912,7 +1000,7 @@ func init() {
 		Rule: "zoo suites, each the full product of its argument menus on 5 frame variants (base, empty, sorted+sliced, selected, aggregated): " +
 			"Filter{6 columns x 28 comparators (all names, unknown, int, nil, functions of every signature) x 22 argument values x Inverse} in 11 clause wrappers (alone, negated, and after sub-clauses that already decide the result) plus And chains with counting predicates and a second invalid sub-clause; " +
 			"Apply/FilteredApply{26 Fn values x 6 destination names x 7x7 source columns}; GroupBy/Aggregate{16 Fn x 6 columns x 4 As x 4 key lists}; ~50 miscellaneous invalid requests (Sort/Select/Distinct/Copy/Slice/empty And,Or/enum type mismatch/Eval malformed/views/ToCSV). " +
-			"Oracles: no panic ever; invalid by the classification table => Err set and Len() = -1. Sticky suite: every errored frame (~100 ways of producing one, also after a valid prefix) x every continuation of length <= 2 over 31 operations with counting callbacks: Err kept, Len -1, no callback call, GroupBy/QFrames/Aggregate carry the error, ToCSV/ToJSON/ToSQL fail and write nothing. " +
+			"Oracles: no panic ever; invalid by the classification table => Err set and Len() = -1. Sticky suite: every errored frame (~100 ways of producing one, also after a valid prefix) x every continuation of length <= 2 over 40 operations (valid ones with counting callbacks and invalid ones that would raise an error of their own): the SAME error kept, Len -1, no callback call, GroupBy/QFrames/Aggregate carry the error, ToCSV/ToJSON/ToSQL fail and write nothing. " +
 			"Non-trivial = cases classified must-err and sticky chains of length 2.",
 		Assumptions: []string{
 			"the validity tables (filterMustErr/applyMustErr/aggMustErr) are written from the statement's list of invalid uses; combinations they do not classify (e.g. int<->float promotion with function comparators) are only checked for panics",
